@@ -114,7 +114,7 @@ def constructor_and_step_preserve_invariant(h, cls, d, retries, bounded=False):
 def ensemble_invariant(h, d, nw, k):
     ev = mc.Events()
     en, s, post, alpha, X = mc.make_ensemble(h, d, nw, ev, max_attempts=1)
-    h.covers(en.EnsembleSampler.advance, en.EnsembleSampler._EnsembleSampler__advance_all, en.EnsembleSampler._EnsembleSampler__advance_walker)
+    h.covers(en.EnsembleSampler.advance, *mc.priv(en.EnsembleSampler, "_EnsembleSampler__advance_all", "_EnsembleSampler__advance_walker"))
     for i in range(nw):
         h.eq(f"before: walker_probs[{i}] == L(walker_{i})", s.walker_probs[i], post.uf(s.walker_positions[i]))
     s.failed_updates = []
@@ -135,7 +135,7 @@ def ensemble_constructor_copies_input(h, d, nw):
     ev = mc.Events()
     h.allow(ValueError)  # degenerate / co-linear starting positions are rejected by the constructor
     en, s, post, alpha, X = mc.make_ensemble(h, d, nw, ev, max_attempts=1, symbolic_ctor=True)
-    h.covers(en.EnsembleSampler.__init__, en.EnsembleSampler._EnsembleSampler__validate_starting_positions)
+    h.covers(en.EnsembleSampler.__init__, *mc.priv(en.EnsembleSampler, "_EnsembleSampler__validate_starting_positions"))
     X0 = np.array(X).copy()
     for i in range(nw):
         h.eq(f"walker_probs[{i}] == L(starting position {i})", s.walker_probs[i], post.uf(X0[i]))
